@@ -351,14 +351,26 @@ def run(ctx):
         (br,) = common.judge_cases(ctx, "C17r", HDR, "list (list Q) * Q", [c["term"] for c in rcases], ["rcase_ok"], shard=60)
         common.settle(ctx, "rwms", rcases, [], br, "n/a")
     ctx.count("rwms values judged", len(rcases))
-    txt = HDR + "Definition pairs : list (Q * Q) := [%s].\nEval vm_compute in bad_cases (fun p => closeb tol40 tol40 (fst p) (snd p)) pairs.\n" % "; ".join("(%s, %s)" % (qlit(a), qlit(b)) for a, b, _ in pairs)
-    p = ctx.write("Pairs.v", txt)
-    ok, so, se, _ = common.coqc(p, ctx.gendir)
-    if not ok:
-        ctx.obligation("X:Pairs.v evaluates", False, se[-500:])
-    else:
-        for i_ in common.parse_z_list(so, 0) or []:
-            ctx.fail("value:" + pairs[i_][2].split(",")[0].split(" ")[0], "%s: the reader returns %r, the file holds %r" % (pairs[i_][2], pairs[i_][0], pairs[i_][1]), {"what": pairs[i_][2], "got": pairs[i_][0], "stored": pairs[i_][1]})
+    # sharded: a single multi-megabyte list literal overflows coqc's stack
+    CH = 4000
+    files = []
+    for k in range(0, len(pairs), CH):
+        txt = HDR + "Definition pairs : list (Q * Q) := [%s].\nEval vm_compute in bad_cases (fun p => closeb tol40 tol40 (fst p) (snd p)) pairs.\n" \
+            % "; ".join("(%s, %s)" % (qlit(a_), qlit(b_)) for a_, b_, _ in pairs[k:k + CH])
+        files.append((k, ctx.write("Pairs_%d.v" % (k // CH), txt)))
+    res = common.coqc_many([f for _, f in files], ctx.gendir)
+    all_ok = True
+    for (k, f), (ok, so, se, _) in zip(files, res):
+        bad = common.parse_z_list(so, 0) if ok else None
+        if not ok or bad is None:
+            all_ok = False
+            ctx.obligation("X:%s evaluates" % os.path.basename(f), False, (se or so)[-500:])
+            continue
+        for i_ in bad:
+            pr = pairs[k + i_]
+            ctx.fail("value:" + pr[2].split(",")[0].split(" ")[0], "%s: the reader returns %r, the file holds %r" % (pr[2], pr[0], pr[1]), {"what": pr[2], "got": pr[0], "stored": pr[1]})
+    if all_ok:
+        ctx.obligation("X:Pairs evaluate (%d shards)" % len(files), True)
     ctx.count("pass-through numbers compared", len(pairs))
 
 
